@@ -4,6 +4,8 @@
 // commits / RootHash calls / recreate-from-root interleaved, another maxTrieLevelInMemory, a permuted build with
 // insert-then-delete noise, recreate under another level followed by touch-and-undo) and all roots must be
 // byte-equal. The empty map must give EmptyTrieHash (fresh trie and after deleting everything).
+// Variant 9 (fork.go) keeps several live tries over one storage (a committed trie and the tries recreated from it,
+// each continued with its own operations) and compares every one of them, after every step, with a fresh trie.
 package main
 
 import (
@@ -58,7 +60,9 @@ func main() {
 	r := vk.Start("C02")
 	r.Rule("each case: a pool of 4-32 structured keys (triegen.Pool), a random history of 10-80 updates/overwrites/deletes ending in a map M; " +
 		"the root of M is computed through 8 histories over fresh real tries and compared with the canonical one (sorted inserts, nothing else). " +
-		"Then every key is deleted again in random order and the root must be EmptyTrieHash. A case is non-trivial when M has at least 2 keys and the " +
+		"Then every key is deleted again in random order and the root must be EmptyTrieHash. Variant 9 (fork): the history is replayed with commits on a trie with a small level, " +
+		"then 6-14 steps each mutate (1-4 updates/deletes, no reads), commit or fork (Recreate at the line's own just-committed root, through another trie object, or at an older root) ONE of up to 4 live tries over the same storage; " +
+		"after every step the root of EVERY live trie (also those not operated on) must equal the root of a fresh trie holding that trie's own pairs, and periodically the pairs it returns through Get are read back and a fresh trie holding exactly those must report the same root. A case is non-trivial when M has at least 2 keys and the " +
 		"canonical trie of M has at least one branch; the shape signature is the canonical node counts of M (branches, extensions, leaves, depth) plus the two memory levels used.")
 	r.Assume("blake2b collision resistance", "memorydb trusted", "no pruning is wired: commits only add nodes")
 	r.MinShapes(50)
@@ -397,6 +401,9 @@ func main() {
 			}
 		}
 
+		// 9: fork - several live tries over one storage, each with its own history (fork.go)
+		runForkVariant(r, c, pool, hist, model, canon, detail)
+
 		var keyList [][]byte
 		for _, k := range ks {
 			keyList = append(keyList, []byte(k))
@@ -424,5 +431,8 @@ func main() {
 			r.Sample(map[string]interface{}{"case": c.Idx, "levels": []uint{lvA, lvB}, "history_ops": len(hist), "final_keys_first8": fk, "canonical_shape": sh.String(), "root": vk.Hex(canon)})
 		}
 	})
+	if r.ReplayCase < 0 && r.Violations() == 0 && r.Counter("fork_cases_with_two_or_more_mutated_lines") < int64(nCases/2) {
+		r.Inconclusive(fmt.Sprintf("fork variant: only %d cases had two or more live tries that were both mutated", r.Counter("fork_cases_with_two_or_more_mutated_lines")))
+	}
 	r.Finish()
 }
